@@ -290,6 +290,12 @@ class C13(object):
         small = enginea.ddmin(sw, test)
         d = dict(desc)
         d["replay"] = small
+
+        # then the image: crop while the same class persists under the minimised schedule
+        def fails(dd):
+            rr = self.execute(dd, ctx)
+            return rr.get("viol") is not None and rr["viol"]["class"] == cls
+        d = enginea.shrink_image_desc(d, fails, min_side=3)
         d["replay_note"] = "switches are [team index, step within team, thread]; between listed switches the running " \
                            "thread continues; when it blocks or ends the lowest-numbered runnable thread runs"
         return d
